@@ -476,6 +476,12 @@ pub fn templates_bounds(thorough: bool) -> Vec<Template> {
         ("mosu".into(), vec![spec(n, KindSpec::Any, Sel::MoSu, vec![SpanSpec::Free], vec![])]),
         ("fb".into(), vec![spec(n, KindSpec::Any, Sel::We, vec![SpanSpec::Free], vec![]), spec(RuleOperator::Fallback, KindSpec::Any, Sel::Empty, vec![SpanSpec::FullDay], vec![])]),
         ("jun".into(), vec![spec(n, KindSpec::Any, Sel::Jun, vec![SpanSpec::Free], vec![])]),
+        // day selectors that wrap over new year and so "match" 1899-12-31 as well as 1900-01-01: a hint computed
+        // from the eve of the supported range would jump over 1900-01-01
+        ("dec20_jun12_full".into(), vec![spec(n, KindSpec::Any, Sel::Dec20ToJun12, vec![SpanSpec::FullDay], vec![])]),
+        ("novfeb_full".into(), vec![spec(n, KindSpec::Any, Sel::NovFeb, vec![SpanSpec::FullDay], vec![])]),
+        ("week52_02_full".into(), vec![spec(n, KindSpec::Any, Sel::Week52To02, vec![SpanSpec::FullDay], vec![])]),
+        ("jun13_jan10_free".into(), vec![spec(n, KindSpec::Any, Sel::Jun13ToJan10, vec![SpanSpec::Free], vec![])]),
     ];
     let _ = thorough;
     for (id, sp) in exprs {
